@@ -52,7 +52,7 @@ func (s *tnState) mapBytes(f func(string) string) {
 
 // RuleTN1 decides the injectivity clause of the tag property.
 func RuleTN1(c *Ctx) {
-	sc := c.Run.Begin("TN1", "the automatic tag name is an injective function of the first path segment: its pipeline of string steps is a byte-wise homomorphism whose images form a uniquely decodable code (Sardinas-Patterson), and its special cases do not collide with the general image", 2)
+	sc := c.Run.Begin("TN1", "the automatic tag name is an injective function of the first path segment: its pipeline of string steps is a byte-wise homomorphism whose images form a uniquely decodable code (Sardinas-Patterson), and its special cases do not collide with the general image", 1)
 	defer sc.End()
 	pk := c.P.Pkg("catalog")
 	tn := c.Named("catalog", "TagName")
